@@ -28,6 +28,7 @@ func engineORD(w *World, tier string) *EngineResult {
 	ordFlat(w, r)
 	ordLastWins(w, r)
 	ordKey(w, r)
+	ordEdge(w, r)
 	r.finish()
 	return r
 }
